@@ -1,9 +1,11 @@
 /-
 C19 — Broker admission: valid authenticated CONNECT only; one session per client id.
 Router part (registration); the network part (`mqtt_connect`, authentication) is covered by the
-admission slice.
+admission slice. The `…_always` style theorems hold in every reachable state of the router model:
+`Reachable cfg s` = `s` is the result of some error-free list of ops (`connect`, `push`, `event`,
+`consume`, `drain`, each under an arbitrary oracle) from `init cfg` (Proofs/Lemmas/Router/Reach.lean).
 -/
-import Proofs.Lemmas.Router.Local
+import Proofs.Lemmas.Router.Rp1_Ghost
 namespace C19
 open Router
 
@@ -20,5 +22,69 @@ theorem invalid_client_id_registers_nothing (s : RState) (spec : ConnectSpec)
   unfold handleNewConnection
   simp only [h, Bool.not_false, if_true]
   exact ⟨_, rfl, rfl, rfl⟩
+
+/-- `max_connections` is respected: in every reachable state the number of live connections is at
+    most the configured maximum -/
+theorem max_connections_respected {cfg : Config} {s : RState} (hr : Reachable cfg s) :
+    s.conns.len ≤ cfg.maxConnections := by
+  have := (AdmInv.reachable hr).bound
+  unfold ConnBound at this
+  rwa [config_reachable hr] at this
+
+/-- in every reachable state `connection_map` is exact: every entry points to a live connection
+    with that client id, and every live connection is registered under its client id -/
+theorem connection_map_exact {cfg : Config} {s : RState} (hr : Reachable cfg s) :
+    (∀ cid id, alookup cid s.connectionMap = some id → ∃ c, getConn s id = some c ∧ c.clientId = cid) ∧
+    (∀ id c, getConn s id = some c → alookup c.clientId s.connectionMap = some id) :=
+  (AdmInv.reachable hr).map
+
+/-- one session per client id: in every reachable state two live connections never share a
+    client id -/
+theorem one_session_per_client_id {cfg : Config} {s : RState} (hr : Reachable cfg s) {i j : Nat} {c1 c2 : Conn}
+    (h1 : getConn s i = some c1) (h2 : getConn s j = some c2) (he : c1.clientId = c2.clientId) : i = j := by
+  have m := (AdmInv.reachable hr).map.2
+  have a := m i c1 h1
+  have b := m j c2 h2
+  rw [he, b] at a
+  simpa using a.symm
+
+/-- a connection is registered (ghost event `registered`, CONNACK committed) only if the CONNECT is
+    admissible: the client id is valid and, not counting the connection it takes over, there is
+    room under `max_connections`; the registration carries the CONNECT's client id / link / clean
+    flag and the new slab entry is live under that client id -/
+theorem registered_only_if_admissible {cfg : Config} {s s' : RState} {o : List Choice} {spec : ConnectSpec}
+    {out : Out} (hr : Reachable cfg s) (h : step { s with oracle := o } (.connect spec) = .ok (s', out))
+    {id link : Nat} {cid : String} {clean sp : Bool}
+    (hm : Ghost.registered id link cid clean sp ∈ s'.ghost.drop s.ghost.length) :
+    validClientId spec.clientId = true ∧
+    s.conns.len - (if (alookup spec.clientId s.connectionMap).isSome then 1 else 0) < cfg.maxConnections ∧
+    (cid = spec.clientId ∧ link = spec.link ∧ clean = spec.clean) ∧
+    ∃ c, getConn s' id = some c ∧ c.clientId = spec.clientId ∧ c.link = spec.link := by
+  have ha : AdmInv { s with oracle := o } := (AdmInv.reachable hr).oracle o
+  have hcfg : ({ s with oracle := o } : RState).config = cfg := config_reachable (s := s) hr
+  cases step_cases h with
+  | connect _ h' =>
+    have := connect_registered_only_if ha h' (id := id) (link := link) (cid := cid) (clean := clean) (sp := sp) hm
+    rw [hcfg] at this
+    exact this
+
+/-- takeover: a valid CONNECT whose client id is registered removes the old connection first —
+    the removal is the first event the step records — and afterwards the only live connection
+    with that client id (if any) is the one registered by this very step -/
+theorem takeover_removes_old_first {cfg : Config} {s s' : RState} {o : List Choice} {spec : ConnectSpec}
+    {out : Out} (hr : Reachable cfg s) (h : step { s with oracle := o } (.connect spec) = .ok (s', out))
+    (hv : validClientId spec.clientId = true) {old : Nat}
+    (hold : alookup spec.clientId s.connectionMap = some old) :
+    ∃ c tail, getConn s old = some c ∧ c.clientId = spec.clientId ∧
+      s'.ghost = s.ghost ++ Ghost.removed old spec.clientId c.clean :: tail ∧
+      ∀ j d, getConn s' j = some d → d.clientId = spec.clientId →
+        ∃ sp, Ghost.registered j spec.link spec.clientId spec.clean sp ∈ tail := by
+  have ha : AdmInv { s with oracle := o } := (AdmInv.reachable hr).oracle o
+  cases step_cases h with
+  | connect _ h' => exact connect_takeover_first ha h' hv hold
+
+/-- non-vacuity: the initial state is reachable and a first CONNECT with a valid id is registered
+    when `max_connections > 0` -/
+example (cfg : Config) : Reachable cfg (init cfg) := reachable_init cfg
 
 end C19
